@@ -3,6 +3,7 @@ package main
 import (
 	"fmt"
 	"go/token"
+	"go/types"
 	"sort"
 	"strings"
 
@@ -273,6 +274,9 @@ func c13Reaction(c *Ctx, p *Prog, m *Model) {
 		for _, gs := range globalStores(fn) {
 			probs4 = append(probs4, fmt.Sprintf("store to package variable %s at %s", nm(gs.G), p.Pos(instrPos(gs.Instr))))
 		}
+		for _, why := range unprovenPositions(p, m, fn) {
+			probs3 = append(probs3, why)
+		}
 		r.Check(len(probs3) == 0, "R13.3", "fn:"+name, p.FuncPos(fn), "no explicit failure construct on the failure path", strings.Join(probs3, "; "))
 		r.Check(len(probs4) == 0, "R13.4", "fn:"+name, p.FuncPos(fn), "stores nothing but locals", "failure handling leaves state behind: "+strings.Join(probs4, "; "))
 	}
@@ -358,4 +362,103 @@ func guardedCallers(p *Prog, m *Model, fn *ssa.Function, lvls map[string]bool) b
 		}
 	}
 	return true
+}
+
+// unprovenPositions: index and re-slice positions in fn that are not constants (those are R02.8's), not the index
+// of a loop over the same sequence, and not bounded by a dominating comparison with the length of that sequence.
+// On the failure path the typical position is the byte count a destination returned, which the fan-out sums over
+// its members: nothing bounds it by the length of the record.
+func unprovenPositions(p *Prog, m *Model, fn *ssa.Function) []string {
+	var out []string
+	boundedBy := func(pos ssa.Value, seq ssa.Value, b *ssa.BasicBlock, strict bool) bool {
+		if _, ok := constInt(pos); ok {
+			return true
+		}
+		if fullIndexLoop(pos, seq) {
+			return true
+		}
+		// len(seq)-k, len(seq) itself (for a re-slice)
+		isLen := func(v ssa.Value) bool { y, ok := lenCallOf(v); return ok && y == strip(seq) }
+		if !strict && isLen(pos) {
+			return true
+		}
+		if bo, ok := pos.(*ssa.BinOp); ok && bo.Op == token.SUB && isLen(bo.X) {
+			if k, ok := constInt(bo.Y); ok && k >= 0 && lenLower(seq, b, 0) >= k {
+				return true
+			}
+		}
+		for _, g := range guardsOf(b) {
+			cond, neg := normCond(g.If.Cond)
+			bo, ok := cond.(*ssa.BinOp)
+			if !ok {
+				continue
+			}
+			taken := (g.Succ == 0) != neg
+			op := bo.Op
+			x, y := bo.X, bo.Y
+			if strip(y) == strip(pos) && isLen(x) { // len op pos  ->  pos op' len
+				x, y = y, x
+				switch op {
+				case token.LSS:
+					op = token.GTR
+				case token.LEQ:
+					op = token.GEQ
+				case token.GTR:
+					op = token.LSS
+				case token.GEQ:
+					op = token.LEQ
+				}
+			}
+			if strip(x) != strip(pos) || !isLen(y) {
+				continue
+			}
+			if !taken {
+				switch op {
+				case token.LSS:
+					op = token.GEQ
+				case token.LEQ:
+					op = token.GTR
+				case token.GTR:
+					op = token.LEQ
+				case token.GEQ:
+					op = token.LSS
+				default:
+					continue
+				}
+			}
+			if op == token.LSS || (op == token.LEQ && !strict) {
+				return true
+			}
+		}
+		return false
+	}
+	seqT := func(t types.Type) bool {
+		switch u := t.Underlying().(type) {
+		case *types.Slice:
+			return true
+		case *types.Basic:
+			return u.Info()&types.IsString != 0
+		}
+		return false
+	}
+	for _, b := range fn.Blocks {
+		for _, in := range b.Instrs {
+			switch x := in.(type) {
+			case *ssa.IndexAddr:
+				if seqT(x.X.Type()) && !boundedBy(x.Index, x.X, b, true) {
+					out = append(out, fmt.Sprintf("%s[%s] at %s: the position is not bounded by the length", m.valDesc(x.X), m.valDesc(x.Index), p.Pos(instrPos(x))))
+				}
+			case *ssa.Slice:
+				if !seqT(x.X.Type()) {
+					continue
+				}
+				for _, pos := range []ssa.Value{x.Low, x.High} {
+					if pos != nil && !boundedBy(pos, x.X, b, false) {
+						out = append(out, fmt.Sprintf("re-slice of %s at position %s at %s: nothing bounds the position by the length (a byte count returned by a destination, summed over the members of a list, can exceed it), so the logging call panics instead of returning", m.valDesc(x.X), m.valDesc(pos), p.Pos(instrPos(x))))
+					}
+				}
+			}
+		}
+	}
+	return out
 }
